@@ -266,20 +266,28 @@ pub fn reuse(v: usize) -> Option<reuse::Reuse> {
     let (timing, limits) = [(false, false), (true, false), (false, true), (true, true)][(v / 2) % 4];
     let k = v / 8;
     if v % 2 == 1 {
-        // the first occurrences of the tags: types Timing (CanMode, u32) and Limits (Range16)
+        // the first occurrences of the tags: types Timing (CanMode), Mask (u32) and Limits (Range16)
         let mut c = Can::new(p(U16, k, 0));
         if timing {
-            c.timing = Some(Timing::new([CanMode::Classic, CanMode::Fd][(k / 2) % 2], p(U32, k, 0)));
+            let mut tm = Timing::new([CanMode::Classic, CanMode::Fd][(k / 2) % 2]);
+            if k % 5 != 4 {
+                tm.mask = Some(Mask::new(p(U32, k, 0)));
+            }
+            c.timing = Some(tm);
         }
         if limits {
             c.limits = Some(Limits::new(Range16::new(p(I16, k, 0), p(I16, k, 1))));
         }
         t.can = Some(c);
     } else {
-        // the second occurrences: the macro names their types Timing2 (EthMode, u64) and Limits2 (Range32)
+        // the second occurrences: the macro names their types Timing2 (EthMode), Mask2 (u64) and Limits2 (Range32)
         let mut e = Eth::new(p(U16, k, 1));
         if timing {
-            e.timing = Some(Timing2::new([EthMode::Udp, EthMode::Tcp][(k / 2) % 2], p(U64, k, 0)));
+            let mut tm = Timing2::new([EthMode::Udp, EthMode::Tcp][(k / 2) % 2]);
+            if k % 5 != 4 {
+                tm.mask = Some(Mask2::new(p(U64, k, 0)));
+            }
+            e.timing = Some(tm);
         }
         if limits {
             e.limits = Some(Limits2::new(Range32::new(p(I32, k, 0), p(I32, k, 1))));
